@@ -139,16 +139,14 @@ ModelInfl(k, full) ==
 RECURSIVE Quiesce(_, _, _, _, _)
 Quiesce(rr, SS, av, rj, outs) ==
     IF ~CanStep(rr, av) THEN [r |-> rr, outs |-> outs]
-    ELSE LET st == Step(rr, SS, av, C, ModelInfl, rj)
-         IN Quiesce(st.r, SS, av, rj,
-                    IF st.out.k \in {"msg", "fail", "frame", "badinfl", "noinfl"}
-                    THEN Append(outs, st.out) ELSE outs)
+    ELSE One({Quiesce(st.r, SS, av, rj,
+                      IF st.out.k \in {"msg", "fail", "frame", "badinfl", "noinfl"}
+                      THEN Append(outs, st.out) ELSE outs) : st \in {Step(rr, SS, av, C, ModelInfl, rj)}})
 
 RECURSIVE ByteWise(_, _, _, _, _, _)
 ByteWise(rr, SS, from, to, rj, outs) ==
     IF from >= to THEN [r |-> rr, outs |-> outs]
-    ELSE LET q == Quiesce(rr, SS, from + 1, rj, outs)
-         IN ByteWise(q.r, SS, from + 1, to, rj, q.outs)
+    ELSE One({ByteWise(q.r, SS, from + 1, to, rj, q.outs) : q \in {Quiesce(rr, SS, from + 1, rj, outs)}})
 
 (* ------------------------------------------------ frame-level rule table ------ *)
 (* Independent statement of RFC 6455 5.2/5.4/5.5/5.6/7.4 and RFC 7692 6.1/7.2 over
@@ -244,9 +242,9 @@ Match(outs, ex) ==      \* "" if outs is a prefix-wise match of the expectations
 Feed(n) ==
     /\ ok = ""
     /\ avail + n <= Len(S)
-    /\ LET q == Quiesce(r, S, avail + n, rej, <<>>)
-           b == ByteWise(r, S, avail, avail + n, rej, <<>>)
-           m == Match(q.outs, exp)
+    /\ \E q \in {Quiesce(r, S, avail + n, rej, <<>>)} :
+       \E b \in {ByteWise(r, S, avail, avail + n, rej, <<>>)} :
+       LET m == Match(q.outs, exp)
            latch == Failed(r) /\ (q.outs # <<>> \/ ~Failed(q.r) \/ ~(r.failed \subseteq q.r.failed))
            dead == q.r.ph = "F"
        IN /\ ok' = IF q.r # b.r \/ q.outs # b.outs THEN "CutInvariance"
